@@ -418,6 +418,26 @@ def run_check(pid, tier, jobs, meta, seed=0, procs=None, job_timeout=None, extra
     rnd = random.Random(seed)
     for (j, o) in (selftests if st_limit == len(selftests) else rnd.sample(selftests, st_limit)):
         tasks.append(("selftest", j, o, None, None, o["theta"]))
+    # float conformance at extreme parameter points (opt-in per job: opts["extreme"] = dict(scale=R, points=K)): the identities
+    # are proved over the reals; here the REAL library is run in floating point at parameter points of magnitude up to R (the
+    # property's stated range) and every goal is evaluated there.  This is a concrete replay, not a solver verdict: it is the
+    # guard against mathematically equal but numerically unstable reformulations, and is reported separately in the evidence.
+    n_extreme = 0
+    for j, o in outs:
+        exo = j.get("opts", {}).get("extreme")
+        if not exo or o.get("error") or not o.get("theta"):
+            continue
+        vr = [tuple(x) for x in j.get("opts", {}).get("var_ranges", [])]
+        for k in range(int(exo.get("points", 2))):
+            th = {}
+            for nm in sorted(o["theta"]):
+                rg = next(((lo, hi) for pref, lo, hi in vr if nm.startswith(pref)), None)
+                if rg is not None:
+                    th[nm] = rnd.uniform(*rg)
+                else:
+                    th[nm] = round(rnd.uniform(-1.0, 1.0) * float(exo.get("scale", 10.0)), 3)
+            tasks.append(("extreme", j, o, None, None, th))
+            n_extreme += 1
     # group identical (job, theta) evaluations
     uniq = {}
     for t in tasks:
@@ -430,6 +450,7 @@ def run_check(pid, tier, jobs, meta, seed=0, procs=None, job_timeout=None, extra
             vals = pool.map(_real_eval_star, [uniq[k] for k in keys])
             realres = dict(zip(keys, vals))
     violations, knownhits, twins_replayed, st_ok, st_points = [], [], 0, 0, 0
+    ext_goals = 0
     seen_v = set()
     for (what, j, o, name, kind, theta) in tasks:
         rr = realres[(j["name"], json.dumps(theta, sort_keys=True))]
@@ -437,6 +458,25 @@ def run_check(pid, tier, jobs, meta, seed=0, procs=None, job_timeout=None, extra
             inconclusive.append("job %s: real-torch run failed: %s" % (j["name"], rr["error"]))
             continue
         ev = rr["evals"]
+        if what == "extreme":
+            bad = 0
+            twn = {r["name"] for r in o["results"] if r.get("twin")}
+            for gname, e in ev.items():
+                if gname in twn or e.get("kind") == "twin" or e.get("ok", True):
+                    continue
+                key = next((r.get("key") for r in o["results"] if r["name"] == gname), None) or next((f.get("key") for f in o["facts"] if f["name"] == gname), None) or gname
+                detail = "floating-point result at an extreme parameter point: " + (e.get("detail") or ("library %.12g vs reference %.12g" % (e.get("lib", float("nan")), e.get("ref", float("nan")))))
+                if (pid, key) in kf:
+                    if (pid, key) not in seen_v:
+                        knownhits.append((key, kf[(pid, key)].get("what", ""), detail))
+                        seen_v.add((pid, key))
+                    continue
+                bad += 1
+                if bad <= 5:
+                    path = write_replay(pid, j, gname, theta, e.get("lib"), e.get("ref"), detail)
+                    violations.append(dict(job=j["name"], goal=gname, key=key, replay=path, detail=detail))
+            ext_goals += len(ev)
+            continue
         if what == "selftest":
             bad = []
             cnt = 0
@@ -513,6 +553,8 @@ def run_check(pid, tier, jobs, meta, seed=0, procs=None, job_timeout=None, extra
         facts=dict(total=fact_count, ok=fact_ok),
         twins=dict(total=n_twins, sat=n_twins_ok, replayed_as_numeric_difference=twins_replayed),
         shim_selftest=dict(jobs_cross_checked=st_ok, values_compared=st_points),
+        extreme_point_float_conformance=dict(real_runs=n_extreme, goal_values_checked=ext_goals,
+                                             note="concrete runs of the real library at parameter magnitudes up to the property's stated range; not a solver verdict"),
         second_solver=dict(xsum, note="every query text answered by the z3 5.1 API is re-run through the listed solver binaries (one incremental process per job); 'checked' counts query x solver pairs; a sat/unsat disagreement makes the check inconclusive"),
         solver_time_s=round(solver_s, 3),
         normal_form_time_s=round(nf_s, 3),
